@@ -23,6 +23,7 @@
 #include <sys/wait.h>
 #include <sys/epoll.h>
 #include <sys/timerfd.h>
+#include <pthread.h>
 
 #include "ctx.h"
 #include "src.h"
@@ -307,10 +308,35 @@ static bool is_env(call_t *c) { return !strcmp(c->tok[0], "fdwrite") || !strcmp(
 
 #define H(i) ((i) >= 0 && (i) < MAXMOD ? handle[i] : NULL)
 
+static int exec_call(proc_t *pr, int idx, m_evt_t **cur, int ncur);
+
+/* "foreign <own> <call...>": the call is made by ANOTHER thread, which holds a context of its own (own = 1) or none;
+   the calling thread waits for it (so a foreign call placed in a callback runs while the owner is inside that callback) */
+typedef struct { proc_t pr; int own; m_evt_t **cur; int ncur; } foreign_t;
+static void *foreign_main(void *arg) {
+    foreign_t *f = arg;
+    if (f->own) { int r = m_ctx_register("fctx", M_CTX_PERSIST, NULL); if (r) out("BADFOREIGN ctxreg %d", r); }
+    exec_call(&f->pr, 0, f->cur, f->ncur);
+    if (f->own) { int r = m_ctx_deregister(); if (r) out("BADFOREIGN ctxdereg %d", r); }
+    return NULL;
+}
+
 static int exec_call(proc_t *pr, int idx, m_evt_t **cur, int ncur) {
     call_t *c = &pr->calls[idx];
     const char *o = c->tok[0];
     int consumed = 1;
+    if (!strcmp(o, "foreign")) {
+        out("> foreign");
+        if (c->nt < 3 || !strcmp(c->tok[2], "foreign") || !strcmp(c->tok[2], "loop")) { out("BADCALL foreign"); return 1; }
+        static foreign_t f; memset(&f, 0, sizeof(f));
+        call_t *inner = &f.pr.calls[0]; inner->nt = c->nt - 2;
+        for (int i = 0; i < inner->nt; i++) strcpy(inner->tok[i], c->tok[i + 2]);
+        f.pr.n = 1; f.own = (int)L(c->tok[1]); f.cur = cur; f.ncur = ncur;
+        pthread_t th; fflush(stdout);
+        if (pthread_create(&th, NULL, foreign_main, &f)) { out("BADCALL foreign thread"); return 1; }
+        pthread_join(th, NULL);
+        return 1;
+    }
     if (!strcmp(o, "tell") || !strcmp(o, "publish") || !strcmp(o, "tellmany")) out("> %s %s", o, c->tok[3]);
     else if (!strcmp(o, "broadcast")) out("> %s %s", o, c->tok[2]);
     else if (!strcmp(o, "stash")) out("> %s %ld", o, 100 * (L(c->tok[1]) + 1) + L(c->tok[2]) + 1);
